@@ -152,7 +152,9 @@ def judge(r, nbytes):
     if rep:
         return "%s:%s" % rep, "sanitizer report (%s) in %s; %s" % (rep[0], rep[1], r.status)
     if r.timeout:
-        return "hang", "no exit within the wall-clock guard (cpu %.1fs)" % r.cpu
+        if r.cpu_exceeded:
+            return "hang", "still running after %.0f s of CPU (ceiling %.0f s for %d bytes)" % (r.cpu, ceiling(nbytes), nbytes)
+        return "inconclusive-wall-guard", "wall-clock guard hit after %.1f s of CPU (machine load); not a verdict" % r.cpu
     if r.sig:
         m = re.search(r"@@gdb-frame (\S+)", r.err)
         return "signal-%d:%s" % (r.sig, m.group(1) if m else "?"), "ended by %s; stderr: %s" % (r.status, r.err[-200:])
@@ -174,7 +176,8 @@ def run_case(sc, tool, data, opts=(), timeout=None, keep=False):
     p = sc.put("i%d_%d.exp" % (os.getpid(), sc.n), data)
     d = sc.fresh("w")
     args = list(opts) + ([p] if tool != "exppp" or "-o" in opts else ["-o", "out.exp", p])
-    r = F.run_tool(build.tool("san", tool), args, cwd=d, timeout=timeout or (60 + 3 * ceiling(len(data))), env=env(), light=True)
+    # termination is judged on CPU time (polled from /proc): the wall-clock guard only protects the campaign and is never a verdict
+    r = F.run_tool(build.tool("san", tool), args, cwd=d, timeout=timeout or 900, cpu_limit=ceiling(len(data)), env=env(), light=True)
     if r.sig and not r.timeout and san_report(r.err) is None:
         r.err += "\n@@gdb-frame %s\n" % gdb_frame(tool, args, d)
     shutil.rmtree(d, ignore_errors=True)
@@ -247,8 +250,18 @@ def has_attribute(text):
     return re.search(r"(?is)\bentity\b[^;]*;\s*(?!end_entity)[a-z]", text) is not None
 
 
+def f9_probe():
+    """is finding F9 (exp2python: strdup undeclared, pointer truncated) still in the tree?"""
+    sc = F.Scratch("c06_f9_%d" % os.getpid())
+    try:
+        r = run_case(sc, "exp2python", b"SCHEMA f9probe;\nENTITY e;\n  a : INTEGER;\nEND_ENTITY;\nEND_SCHEMA;\n")
+        return judge(r, 60) is not None
+    finally:
+        sc.close()
+
+
 def campaign_chunk(arg):
-    idx, rseeds, seeds, big_seeds, tier, seed, open_sigs = arg
+    idx, rseeds, seeds, big_seeds, tier, seed, open_sigs, f9_present = arg
     sc = F.Scratch("c06_%d" % idx)
     ev = common.Evidence(PROP, LEVEL, tier, seed, RULE)
     fails = []
@@ -263,10 +276,10 @@ def campaign_chunk(arg):
             for sig, (desc, pred) in AVOID.items():
                 if sig in open_sigs and pred(text, tool, opts):
                     probes[sig] = probes.get(sig, 0) + 1
-                    if probes[sig] > 2:
+                    if probes[sig] > 1:
                         ev.exclude("shape of open finding excluded: " + desc)
                         skip = True
-            if F9_SIG in open_sigs and tool == "exp2python" and has_attribute(text):
+            if F9_SIG in open_sigs and f9_present and tool == "exp2python" and has_attribute(text):
                 probes[F9_SIG] = probes.get(F9_SIG, 0) + 1
                 if probes[F9_SIG] > 1:
                     ev.exclude("exp2python on input with an entity attribute (finding %s)" % F9_SIG)
@@ -282,10 +295,13 @@ def campaign_chunk(arg):
             if nt and len(ev.samples) < 2 and kind[0] in "bc":
                 sample = {"kind": kind, "tool": tool, "status": r.status, "stderr_head": r.err[:200], "input_head": text[:300]}
             ev.case(common.chash([text, tool, list(opts)]), nt, classes=cls, sample=sample)
+            if v and v[0] == "inconclusive-wall-guard":
+                ev.inconclusive.append("[%s %s] %s" % (kind, tool, v[1]))
+                v = None
             if v:
                 sig = v[0]
-                if tool == "exp2python" and sig.startswith(("signal", "stack", "heap", "SEGV")) and r.rc != 1 and has_attribute(text) and "strdup" not in sig:
-                    pass
+                if f9_present and tool == "exp2python" and has_attribute(text) and not sig.startswith(("hang", "rejected", "exit-status")):
+                    sig = F9_SIG      # while F9 is in the tree every such failure of exp2python is attributed to it
                 fails.append({"sig": sig, "what": "[%s %s %s] %s" % (kind, tool, " ".join(opts), v[1]), "data": data, "tool": tool, "opts": list(opts),
                               "kind": kind})
         return {"ev": ev.partial(), "fails": fails}
@@ -303,8 +319,10 @@ def shipped_job(arg):
         data = open(path, "rb").read()
         d = sc.fresh("w")
         args = [path] if tool != "exppp" else ["-o", "out.exp", path]
-        r = F.run_tool(build.tool("san", tool), args, cwd=d, timeout=3600, env=env(), light=True)
+        r = F.run_tool(build.tool("san", tool), args, cwd=d, timeout=3600, cpu_limit=ceiling(len(data) * 50), env=env(), light=True)
         v = judge(r, len(data) * 50)
+        if v and v[0] == "inconclusive-wall-guard":
+            v = None
         if v is None and r.rc != 0:
             v = ("shipped-rejected", "shipped schema rejected: %s; stderr: %s" % (r.status, r.err[-300:]))
         return {"path": path, "tool": tool, "status": r.status, "cpu": round(r.cpu, 1), "v": v, "bytes": len(data)}
@@ -322,7 +340,7 @@ def scaling_probe(sc, name, tool, base_n):
         ts = []
         for k in range(4):
             data = M.stretch(name, base_n * (1 << k)).encode("latin-1")
-            r = run_case(sc, tool, data, timeout=600)
+            r = run_case(sc, tool, data, timeout=900)
             if r.timeout or r.sig or san_report(r.err):
                 return {"aborted": r.status, "n": base_n * (1 << k)}
             ts.append(max(r.cpu, 1e-3))
@@ -412,6 +430,8 @@ def main(tier, seed):
     open_sigs = set(e["sig"] for e in findings.open_for(PROP))
     rc = 0
     fails = []
+    f9_present = f9_probe()
+    ev.extra["finding_F9_present_in_tree"] = f9_present
 
     # (e) shipped schemas
     data = M.shipped(common.REPO, "data")
@@ -420,7 +440,7 @@ def main(tier, seed):
     others = data if tier == "thorough" else data[:4]
     for p in others:
         for t in ("exppp", "exp2cxx", "exp2python"):
-            if t == "exp2python" and F9_SIG in open_sigs:
+            if t == "exp2python" and F9_SIG in open_sigs and f9_present:
                 ev.exclude("exp2python on shipped schema (finding %s)" % F9_SIG)
                 continue
             jobs.append((p, t))
@@ -436,6 +456,8 @@ def main(tier, seed):
         ev.extra["shipped"].append({"schema": os.path.basename(p), "tool": t, "status": res["status"], "cpu_s": res["cpu"]})
         ev.case(common.chash([p, t]), False, classes=["class:e", "kind:e:shipped", "tool:" + t, "outcome:" + ("clean" if not res["v"] else res["v"][0].split(":")[0])])
         if res["v"]:
+            if f9_present and t == "exp2python" and not res["v"][0].startswith(("hang", "shipped-rejected")):
+                res["v"] = (F9_SIG, res["v"][1])
             fails.append({"sig": res["v"][0], "what": "[shipped %s %s] %s" % (os.path.basename(p), t, res["v"][1]), "data": open(p, "rb").read(),
                           "tool": t, "opts": [], "kind": "e:shipped", "path": p})
     ev.extra["shipped_wall_s"] = round(time.time() - t0, 1)
@@ -454,7 +476,7 @@ def main(tier, seed):
     rseeds = M._hyp_collect(__import__("hypothesis").strategies.integers(0, 2 ** 48), common.sub_seed(seed, PROP, "cases"), n_cases)
     rseeds = list(dict.fromkeys(rseeds))
     chunks = [rseeds[i::64] for i in range(64)]
-    res = common.pmap(common.guarded(campaign_chunk), [(i, c, seeds, big, tier, seed, open_sigs) for i, c in enumerate(chunks) if c])
+    res = common.pmap(common.guarded(campaign_chunk), [(i, c, seeds, big, tier, seed, open_sigs, f9_present) for i, c in enumerate(chunks) if c])
     for status, r in res:
         if status != "ok":
             print("machinery error in a C06 worker:\n" + r)
